@@ -205,6 +205,22 @@ impl Pager {
             .truncate(false)
             .open(&path)?;
 
+        // One handle per database: hold an exclusive advisory lock on the page file for the
+        // lifetime of this handle. The OS drops it when the file is closed (also on process death).
+        // `File::try_lock` is stable since Rust 1.89; the workspace already needs 1.88 (let chains).
+        #[allow(clippy::incompatible_msrv)]
+        let locked = file.try_lock();
+        match locked {
+            Ok(()) => {}
+            Err(std::fs::TryLockError::WouldBlock) => {
+                return Err(Error::Io(io::Error::new(
+                    io::ErrorKind::WouldBlock,
+                    "database is already open (page file is locked by another handle)",
+                )));
+            }
+            Err(std::fs::TryLockError::Error(e)) => return Err(Error::Io(e)),
+        }
+
         if !existed || file.metadata()?.len() == 0 {
             let meta = Meta::new();
             let bitmap = Bitmap::new();
